@@ -2,15 +2,6 @@
 
 namespace yaclib::detail {
 
-constexpr std::cv_status CVStatusFrom(WaitStatus status) {
-  if (status == WaitStatus::Ready) {
-    return std::cv_status::no_timeout;
-  }
-  return std::cv_status::timeout;
-}
-
-constexpr std::cv_status CVStatusFrom(std::cv_status status) {
-  return status;
-}
+// CVStatusFrom is defined in the header (constexpr functions are inline: every user needs the definition)
 
 }  // namespace yaclib::detail
